@@ -9,7 +9,7 @@ CFG = {
         J("scaled", "c13-hdr", imports="Base Stream Inst Run RunHdr"),
         J("prod", "c13-hdr", imports="Base Stream Inst Run RunHdr"),
         # the C write callback accepting part of each buffer (shared with C20)
-        J("prod", "c20", needs_repo_bins=["mla-bindings-c"], imports="Base Stream Inst Run RunC20", shard=30),
+        J("prod", "c20-rt", needs_repo_bins=["mla-bindings-c"], imports="Base Stream Inst Run RunC20", shard=30),
     ],
     "run_modules": ["RunC13", "RunFsComp", "RunWRows", "RunWRowsProofs", "RunHdr", "RunC20"],
     "rule": "scaled constants: 48 (quick) / 300 (thorough) generated archives (as C01: 1-4 files, boundary-sized interleaved pieces, the 4 layer "
@@ -88,5 +88,5 @@ CFG["explanation"] += (" || header stage (props/C13.v C13_header_any_source, C13
                 "theorems (any refining inner stream) and C01: archive_open over any such source of an archive_write output reads back what was written")
 
 # round-5 seed C13-m7
-CFG["rule"] += ("; c20 (shared with C20): archives created through the C interface with write callbacks that accept part of each buffer (1 byte, half, all but one, at most 7 / 4095 bytes): "
+CFG["rule"] += ("; c20-rt (the round-trip family of C20's job): archives created through the C interface with write callbacks that accept part of each buffer (1 byte, half, all but one, at most 7 / 4095 bytes): "
                 "readable by the Rust reader with the files and bytes passed in")
